@@ -36,7 +36,7 @@ Inductive oop :=
 | ORecv (hid : N) (id : N)
 | OFault (wmode : N).                (* the harness-owned stream changes the way it answers Write (no label of the endpoint):
                                         0 healthy, 1 (0, closed pipe), 2 (7, error), 3 (0, EOF), 4 (0, nil), 5 five bytes per call,
-                                        6 (len, EOF) *)
+                                        6 (len, EOF), 7 blocks until the stream is closed, then (0, closed pipe) *)
 
 (* closer calls, class of the closer's argument (0 never called, 1 nil, 2 error), queue closed, ids received *)
 Definition hobs := (N * N * bool * list N)%type.
